@@ -88,6 +88,9 @@ pub struct ReplayOpts<'a> {
     pub hint: Option<&'a NodeInfo>,
     /// dedup modulo permutations of the keys {a,b} and of the values {1,2}
     pub symmetry: bool,
+    /// C12 configuration-source dimension: use this (deserialised) configuration instead of the
+    /// one built from `Cfg` + `CookieCfg`
+    pub config_override: Option<&'a SessionConfig>,
 }
 
 /// Observation of a `finalize_session` call.
@@ -398,8 +401,8 @@ pub async fn replay(ctx: &Ctx, cfg: &Cfg, hist: &[Event], opts: &ReplayOpts<'_>)
     let mem = InMemorySessionStore::new();
     let log: SharedLog = Arc::new(Mutex::new(StoreLog { recording: true, ..Default::default() }));
     let store = SessionStore::new(LogBackend { inner: mem.clone(), log: log.clone() });
-    let config = session_config(cfg, opts.cookie);
-    let wire_proc = ctx.wire.get(opts.cookie.name).ok_or("no wire processor for this cookie name")?;
+    let config = opts.config_override.cloned().unwrap_or_else(|| session_config(cfg, opts.cookie));
+    let wire_proc = ctx.wire.get(config.cookie.name.as_str()).ok_or("no wire processor for this cookie name")?;
     let mut model = Model::default();
     let mut bind = Binding { list: Vec::new() };
     let mut jar = Jar::default();
